@@ -299,3 +299,123 @@ Proof.
   - right. exists i, st, mm, n, rest. split; [apply in_or_app; right; left; reflexivity|]. split; [exact Est|]. split; [exact Hn|].
     right. eapply arm_cited_run_cited, K.
 Qed.
+
+
+(* ================================================================================================================
+   THE STANDARD LIBRARY (see the end of Props/C20.v): the run-level theorems above that carry `call_errors_base call`,
+   with `call := stdlib_call rxo t` — no hypothesis on functions is left. *)
+From TSG Require Import Model.Stdlib Proofs.StdlibHyps.
+
+Theorem strict_error_cites_statement_of_the_run_stdlib : forall {rx : Type} rxo t fl cfg glob (regexes : list rx) find fuel sts ms s p e,
+  exec_file t fl cfg glob regexes find (stdlib_call rxo t) fuel sts ms s p = Err e ->
+  (exists l, e = ECancelled l) \/
+  exists B1 st m B2 s1 p1,
+    blocks sts ms = B1 ++ (st, m) :: B2 /\
+    iterM (fun b : stanza * qmatch => exec_stanza t fl cfg glob regexes find (stdlib_call rxo t) fuel (fst b) (snd b)) B1 s p = Ok (tt, s1, p1) /\
+    exec_stanza t fl cfg glob regexes find (stdlib_call rxo t) fuel st m s1 p1 = Err e /\
+    match nodes_for_capture m (st_full_stanza_idx st) with
+    | n :: _ =>
+        exists s' e0 e1,
+          stmt_in st s' /\
+          e = EInContext (CtxStmts [{| sc_stmt := stmt_loc s'; sc_stanza := st_start st; sc_node := n |}]) e0 /\
+          (e0 = e1 \/ e0 = EInContext CtxOther e1) /\
+          exists fuel' le s0 p0,
+            exec_stmt t fl cfg glob regexes find (stdlib_call rxo t) fuel' le s' s0 p0 = Err e1 /\ unwrapped e1 /\
+            le_ctx le = {| sc_stmt := stmt_loc s'; sc_stanza := st_start st; sc_node := n |} /\ le_match le = m /\
+            subrun (exec_stmt t fl cfg glob regexes find (stdlib_call rxo t) fuel' le s') s0 p0
+                   (exec_stanza t fl cfg glob regexes find (stdlib_call rxo t) fuel st m) s1 p1
+    | [] => False
+    end.
+Proof.
+  intros rx rxo t fl cfg glob regexes find fuel sts ms s p e.
+  exact (@strict_error_cites_statement_of_the_run rx t fl cfg glob regexes find (stdlib_call rxo t) fuel sts ms s p e (stdlib_call_errors_base rxo t)).
+Qed.
+
+Theorem strict_run_error_cites_statement_of_the_run_stdlib : forall {rx : Type} rxo t fl cfg supplied budget (regexes : list rx) find fuel ms g0 e,
+  run_strict t fl cfg supplied budget regexes find (stdlib_call rxo t) fuel ms g0 = Err e ->
+  check_globals (f_globals fl) (globals_nested supplied) = Err e \/
+  exists glob, check_globals (f_globals fl) (globals_nested supplied) = Ok glob /\
+  ((exists l, e = ECancelled l) \/
+   exists B1 st m B2 s1 p1,
+    blocks (f_stanzas fl) ms = B1 ++ (st, m) :: B2 /\
+    iterM (fun b : stanza * qmatch => exec_stanza t fl cfg glob regexes find (stdlib_call rxo t) fuel (fst b) (snd b)) B1 (sinit g0) (polls0 budget) = Ok (tt, s1, p1) /\
+    exec_stanza t fl cfg glob regexes find (stdlib_call rxo t) fuel st m s1 p1 = Err e /\
+    match nodes_for_capture m (st_full_stanza_idx st) with
+    | n :: _ => located_run t fl cfg glob regexes find (stdlib_call rxo t) (st_start st) n m (stmts_all (st_stmts st))
+                            (exec_stanza t fl cfg glob regexes find (stdlib_call rxo t) fuel st m) s1 p1 e
+    | [] => False
+    end).
+Proof.
+  intros rx rxo t fl cfg supplied budget regexes find fuel ms g0 e.
+  exact (@strict_run_error_cites_statement_of_the_run rx t fl cfg supplied budget regexes find (stdlib_call rxo t) fuel ms g0 e (stdlib_call_errors_base rxo t)).
+Qed.
+
+Theorem strict_error_cites_top_statement_of_the_run_stdlib : forall {rx : Type} rxo t fl cfg glob (regexes : list rx) find fuel st m s p e n rest,
+  nodes_for_capture m (st_full_stanza_idx st) = n :: rest ->
+  exec_stanza t fl cfg glob regexes find (stdlib_call rxo t) fuel st m s p = Err e ->
+  exists pre x post s1 p1 s2 p2 e',
+    st_stmts st = pre ++ x :: post /\
+    clear_frame s p = Ok (tt, s1, p1) /\
+    iterM (top_stmt t fl cfg glob regexes find (stdlib_call rxo t) (st_start st) n m fuel st) pre s1 p1 = Ok (tt, s2, p2) /\
+    exec_stmt t fl cfg glob regexes find (stdlib_call rxo t) fuel (top_le (st_start st) n m st x) x s2 p2 = Err e' /\
+    e = add_context (CtxStmts [{| sc_stmt := stmt_loc x; sc_stanza := st_start st; sc_node := n |}]) e' /\
+    ((exists l, e' = ECancelled l) \/ unwrapped e' \/
+     located_run t fl cfg glob regexes find (stdlib_call rxo t) (st_start st) n m (stmt_subs x)
+                 (exec_stmt t fl cfg glob regexes find (stdlib_call rxo t) fuel (top_le (st_start st) n m st x) x) s2 p2 e').
+Proof.
+  intros rx rxo t fl cfg glob regexes find fuel st m s p e n rest.
+  exact (@strict_error_cites_top_statement_of_the_run rx t fl cfg glob regexes find (stdlib_call rxo t) fuel st m s p e n rest (stdlib_call_errors_base rxo t)).
+Qed.
+
+Theorem lazy_error_cites_top_statement_of_the_run_stdlib : forall {rx : Type} rxo t fl cfg glob (regexes : list rx) find fuel st m s p e n rest,
+  nodes_for_capture m (st_full_file_idx st) = n :: rest ->
+  lexec_stanza t fl cfg glob regexes find (stdlib_call rxo t) fuel st m s p = Err e ->
+  (exists l, e = ECancelled l) \/
+  exists pre x post s1 p1 s2 p2 e',
+    st_stmts st = pre ++ x :: post /\
+    (lpoll L_matches ;;; lclear_frame) s p = Ok (tt, s1, p1) /\
+    iterM (ltop_stmt t fl cfg glob regexes find (stdlib_call rxo t) (st_start st) n m fuel st) pre s1 p1 = Ok (tt, s2, p2) /\
+    lexec_stmt t fl cfg glob regexes find (stdlib_call rxo t) fuel (ltop_le (st_start st) n m st x) x s2 p2 = Err e' /\
+    e = add_context (CtxStmts [{| sc_stmt := stmt_loc x; sc_stanza := st_start st; sc_node := n |}]) e' /\
+    let X := lexec_stmt t fl cfg glob regexes find (stdlib_call rxo t) fuel (ltop_le (st_start st) n m st x) x in
+    ((exists l, e' = ECancelled l) \/ unwrapped e' \/ forced_in_run t fl (stdlib_call rxo t) X s2 p2 e' \/
+     arm_cited_run t fl cfg glob regexes find (stdlib_call rxo t) (st_start st) n m (arm_stmts x) X s2 p2 e').
+Proof.
+  intros rx rxo t fl cfg glob regexes find fuel st m s p e n rest.
+  exact (@lazy_error_cites_top_statement_of_the_run rx t fl cfg glob regexes find (stdlib_call rxo t) fuel st m s p e n rest (stdlib_call_errors_base rxo t)).
+Qed.
+
+Theorem lazy_run_error_cites_reached_stdlib : forall {rx : Type} rxo t fl cfg glob (regexes : list rx) find fuel ms g0 p e,
+  lexec_file t fl cfg glob regexes find (stdlib_call rxo t) fuel ms (linit g0) p = Err e ->
+  (exists l, e = ECancelled l) \/
+  (exists ms1 i mm ms2 st s1 p1 n rest,
+      ms = ms1 ++ (i, mm) :: ms2 /\ nth_error (f_stanzas fl) (N.to_nat i) = Some st /\
+      lexec_blocks t fl cfg glob regexes find (stdlib_call rxo t) fuel ms1 (linit g0) p = Ok (tt, s1, p1) /\
+      lexec_stanza t fl cfg glob regexes find (stdlib_call rxo t) fuel st mm s1 p1 = Err e /\
+      nodes_for_capture mm (st_full_file_idx st) = n :: rest /\
+      let C := lexec_stanza t fl cfg glob regexes find (stdlib_call rxo t) fuel st mm in
+      (forced_in_run t fl (stdlib_call rxo t) C s1 p1 e \/
+       top_cited_run t fl cfg glob regexes find (stdlib_call rxo t) (st_start st) n mm (st_stmts st) C s1 p1 e \/
+       arm_cited_run t fl cfg glob regexes find (stdlib_call rxo t) (st_start st) n mm (flat_map arm_stmts (st_stmts st)) C s1 p1 e)) \/
+  exists s1 p1, lexec_blocks t fl cfg glob regexes find (stdlib_call rxo t) fuel ms (linit g0) p = Ok (tt, s1, p1) /\
+                evaluate_phase t fl (stdlib_call rxo t) (fuel + default_eval_fuel) s1 p1 = Err e /\
+                (cites_deferred [] (l_edges s1 ++ l_attrs s1 ++ l_prints s1) e \/ origin t fl (stdlib_call rxo t) s1 e).
+Proof.
+  intros rx rxo t fl cfg glob regexes find fuel ms g0 p e.
+  exact (@lazy_run_error_cites_reached rx t fl cfg glob regexes find (stdlib_call rxo t) fuel ms g0 p e (stdlib_call_errors_base rxo t)).
+Qed.
+
+Theorem lazy_run_error_cites_reached_run_stdlib : forall {rx : Type} rxo t fl cfg supplied budget (regexes : list rx) find fuel ms g0 e,
+  run_lazy t fl cfg supplied budget regexes find (stdlib_call rxo t) fuel ms g0 = Err e ->
+  check_globals (f_globals fl) (globals_nested supplied) = Err e \/
+  exists glob, check_globals (f_globals fl) (globals_nested supplied) = Ok glob /\
+  ((exists l, e = ECancelled l) \/
+   cites_executed_run t fl cfg glob regexes find (stdlib_call rxo t) fuel ms (linit g0) (polls0 budget) e \/
+   exists s1 p1, lexec_blocks t fl cfg glob regexes find (stdlib_call rxo t) fuel ms (linit g0) (polls0 budget) = Ok (tt, s1, p1) /\
+                 evaluate_phase t fl (stdlib_call rxo t) (fuel + default_eval_fuel) s1 p1 = Err e /\
+                 (cites_deferred [] (l_edges s1 ++ l_attrs s1 ++ l_prints s1) e \/ origin t fl (stdlib_call rxo t) s1 e)).
+Proof.
+  intros rx rxo t fl cfg supplied budget regexes find fuel ms g0 e.
+  exact (@lazy_run_error_cites_reached_run rx t fl cfg supplied budget regexes find (stdlib_call rxo t) fuel ms g0 e (stdlib_call_errors_base rxo t)).
+Qed.
+
